@@ -508,6 +508,15 @@ impl World {
         }
 
         let strict_kind = matches!(p, P::C05 | P::C06 | P::C13 | P::C14 | P::C01);
+        // Attribution: whether a valid message is *accepted* is the business of the round-trip,
+        // interoperability, sequencing and equivalence properties; whether an invalid one is
+        // *rejected* is the business of the sequencing, integrity, binding and authentication
+        // properties. The other profiles note a disagreement with the ideal channel, resynchronise
+        // the model with the context (hook) and go on, so that a break of one property does not
+        // raise an alarm under a property that still holds. (C18 keeps both: inside its worlds the
+        // ideal channel is the only witness of state that leaks between operations of one process.)
+        let strict_accept = matches!(p, P::C01 | P::C02 | P::C04 | P::C05 | P::C14 | P::C18);
+        let strict_reject = matches!(p, P::C01 | P::C02 | P::C05 | P::C06 | P::C07 | P::C08 | P::C14 | P::C18);
         match (&pred, &res) {
             (Pred::Panics, Err(Fail::Panic(_))) => {
                 cov.hit("probe.export_only_open_panics");
@@ -515,7 +524,7 @@ impl World {
             (Pred::Panics, other) => return Err(viol("export-only.open-must-panic", "panic".into(), res_s(other))),
             (_, Err(Fail::Panic(m))) => return Err(viol("open.no-panic", format!("{:?}", pred), format!("panic: {}", m))),
             (Pred::Accept(pt), Ok(got)) => {
-                if got != pt {
+                if got != pt && strict_accept {
                     return Err(viol("open.plaintext", format!("plaintext {}", short_hex(pt)), short_hex(got)));
                 }
                 if !single {
@@ -526,10 +535,22 @@ impl World {
                 }
             }
             (Pred::Accept(pt), Err(f)) => {
-                return Err(viol("open.rejected-valid", format!("Ok({}) at position {}", short_hex(pt), pseq), format!("Err({})", short(f))));
+                if strict_accept {
+                    return Err(viol("open.rejected-valid", format!("Ok({}) at position {}", short_hex(pt), pseq), format!("Err({})", short(f))));
+                }
+                cov.hit("attribution.valid_message_rejected_not_this_property");
             }
             (Pred::Reject(_), Ok(got)) | (Pred::BadTag(..), Ok(got)) => {
-                return Err(viol("open.accepted-invalid", format!("{:?} for delivery '{}' at position {}", pred, label, pseq), format!("Ok({})", short_hex(got))));
+                if strict_reject {
+                    return Err(viol("open.accepted-invalid", format!("{:?} for delivery '{}' at position {}", pred, label, pseq), format!("Ok({})", short_hex(got))));
+                }
+                cov.hit("attribution.invalid_message_accepted_not_this_property");
+                if !single {
+                    // follow the context
+                    let st = rc.real.as_ref().unwrap().seq_state();
+                    rc.m_seq = st.0;
+                    rc.m_over = st.1;
+                }
             }
             (Pred::Reject(e), Err(f)) => {
                 let ok = match f {
